@@ -229,3 +229,17 @@ func TestKnownPersistWithoutExpiry(t *testing.T) {
 		})
 	})
 }
+
+func TestKnownDocumentedCommandsNotRegistered(t *testing.T) {
+	known.Probe(t, "C08-documented-commands-not-registered", func() (bool, string) {
+		return script("pebble", []step{
+			{[]string{"set", "default:t:k", "10"}, "+OK"},
+			{[]string{"decr", "default:t:k"}, ":9"},
+			{[]string{"decrby", "default:t:k", "3"}, ":6"},
+			{[]string{"get", "default:t:k"}, `"6"`},
+			{[]string{"sadd", "default:t:s", "a"}, ":1"},
+			{[]string{"smclear", "default:t:s"}, ":1"},
+			{[]string{"scard", "default:t:s"}, ":0"},
+		})
+	})
+}
